@@ -41,24 +41,26 @@ var slLabels = map[int]string{
 	skiplist.VPSlFindStart: "FP0", skiplist.VPSlLevel: "FP1", skiplist.VPSlFindNode: "FP2", skiplist.VPSlHelp: "FP3",
 	skiplist.VPSlReload: "FP4", skiplist.VPSlReload2: "FP5", skiplist.VPSlPublish: "I2", skiplist.VPSlOwnLoad: "U1",
 	skiplist.VPSlPredCAS: "U3", skiplist.VPSlMarkLoad: "S1", skiplist.VPSlMark: "S2", skiplist.VPSlDelSearch: "DS",
+	skiplist.VPItSeek: "IT0", skiplist.VPItNext: "IN1", skiplist.VPItHelp: "IN2",
 }
 
 type slRun struct {
-	t      *tr.W
-	s      *gate.Sched
-	sl     *skiplist.Skiplist
-	al     *nh.Alloc
-	free   bool
-	top    int
-	mu     sync.Mutex
-	ids    map[*skiplist.Node]int
-	nodes  []*skiplist.Node // by id (1-based), nil while the pointer is not yet known
-	keys   []int
-	lvls   []int
-	nall   int
-	curIns map[string]int // process -> node id of the insert in progress
-	okNode map[int]bool   // node ids whose Insert returned success (valid DeleteNode targets)
-	keep   []unsafe.Pointer
+	t          *tr.W
+	s          *gate.Sched
+	sl         *skiplist.Skiplist
+	al         *nh.Alloc
+	free       bool
+	top        int
+	mu         sync.Mutex
+	ids        map[*skiplist.Node]int
+	nodes      []*skiplist.Node // by id (1-based), nil while the pointer is not yet known
+	keys       []int
+	lvls       []int
+	nall       int
+	curIns     map[string]int // process -> node id of the insert in progress
+	okNode     map[int]bool   // node ids whose Insert returned success (valid DeleteNode targets)
+	positioned map[string]bool
+	keep       []unsafe.Pointer
 }
 
 var slCur atomic.Value
@@ -79,6 +81,21 @@ func (r *slRun) nodeID(n *skiplist.Node) int {
 		return id
 	}
 	return -2
+}
+
+func (r *slRun) itPositioned(name string) bool {
+	r.mu.Lock()
+	defer r.mu.Unlock()
+	return r.positioned[name]
+}
+
+func (r *slRun) setPositioned(name string) {
+	r.mu.Lock()
+	if r.positioned == nil {
+		r.positioned = map[string]bool{}
+	}
+	r.positioned[name] = true
+	r.mu.Unlock()
 }
 
 func (r *slRun) learn(id int, n *skiplist.Node) {
@@ -262,9 +279,60 @@ func slScenario(t *tr.W, sc *slScript, free bool) string {
 	body := func(name string, ops [][]interface{}) func(p *gate.Proc) {
 		return func(p *gate.Proc) {
 			buf := r.sl.MakeBuf()
+			var it *skiplist.Iterator
+			defer func() {
+				if it != nil {
+					it.Close()
+				}
+			}()
 			for _, op := range ops {
 				kind := op[0].(string)
-				arg := num(op[1])
+				arg := 0
+				if len(op) > 1 {
+					arg = num(op[1])
+				}
+				if kind == "itfirst" || kind == "itseek" || kind == "itnext" || kind == "itrefresh" {
+					if it == nil {
+						it = r.sl.NewIterator(skiplist.CompareInt, r.sl.MakeBuf())
+					}
+					if (kind == "itnext" || kind == "itrefresh") && !(r.itPositioned(name) && it.Valid()) {
+						continue
+					}
+					if kind == "itrefresh" && !free {
+						continue // refresh / pause are exercised free-running only (no model steps for them)
+					}
+					if !free {
+						p.Yield(&gate.Point{Pt: "idle", Info: map[string]interface{}{"op": kind, "arg": arg}})
+					}
+					t.Emit(tr.Ev{"e": "ItCall", "p": name, "op": kind, "x": arg})
+					switch kind {
+					case "itfirst":
+						it.SeekFirst()
+					case "itseek":
+						itm := skiplist.NewIntKeyItem(arg)
+						r.mu.Lock()
+						r.keep = append(r.keep, itm)
+						r.mu.Unlock()
+						it.Seek(itm)
+					case "itnext":
+						it.Next()
+					case "itrefresh":
+						if rand.Intn(2) == 0 {
+							it.Pause()
+							it.Resume()
+						}
+						it.Refresh()
+					}
+					r.setPositioned(name)
+					v := it.Valid()
+					e := tr.Ev{"e": "ItPos", "p": name, "valid": v, "k": 0, "node": -1, "refresh": kind == "itrefresh"}
+					if v {
+						e["k"] = skiplist.IntFromItem(it.Get())
+						e["node"] = r.nodeID(it.GetNode())
+					}
+					t.Emit(e)
+					continue
+				}
 				info := map[string]interface{}{"op": kind, "arg": arg}
 				var tgt *skiplist.Node
 				if kind == "deln" {
@@ -362,6 +430,7 @@ func slMain(args []string) int {
 	free := fs.Bool("free", false, "")
 	big := fs.Bool("big", false, "")
 	topFlag := fs.Int("top", 1, "maximum level of every random scenario (the trace cfg's Top)")
+	iters := fs.Int("iters", 0, "number of iterator goroutines per random scenario")
 	fs.Parse(args)
 	t, err := tr.Create(*out)
 	if err != nil {
@@ -423,6 +492,24 @@ func slMain(args []string) int {
 					}
 				}
 				sc.Procs[fmt.Sprintf("p%d", p)] = ops
+			}
+			for q := 1; q <= *iters; q++ {
+				var ops [][]interface{}
+				for j := 0; j < 2+rnd.Intn(2*nk+2); j++ {
+					switch y := rnd.Intn(10); {
+					case j == 0 || y < 1:
+						if rnd.Intn(2) == 0 {
+							ops = append(ops, []interface{}{"itfirst"})
+						} else {
+							ops = append(ops, []interface{}{"itseek", rnd.Intn(nk + 2)})
+						}
+					case y < 3 && *free:
+						ops = append(ops, []interface{}{"itrefresh"})
+					default:
+						ops = append(ops, []interface{}{"itnext"})
+					}
+				}
+				sc.Procs[fmt.Sprintf("it%d", q)] = ops
 			}
 			run(sc)
 		}
